@@ -23,7 +23,7 @@ LEVEL_TEXT = (
     "decoder whenever it accepts; name bookkeeping) and with a lockstep decode_message instance. Thorough adds all histories of length "
     "<= 3 over the genuine pool (bounded enumeration, supplement). Sampling, not proof."
 )
-RUNS = {"quick": 8000, "thorough": 300000}
+RUNS = {"quick": 20000, "thorough": 300000}
 CHUNK = {"quick": 100, "thorough": 1000}
 BUDGET_S = {"quick": 100, "thorough": 2400}
 RULE = (
